@@ -16,11 +16,13 @@ import PV.Gen.C11Tables
 
   1. `gen_parenTable_eq`      real unparser's parenthesisation decisions = the model's, all 1831 admissible pairs
   2. `unparse_shape`          for EVERY expression the model parenthesises exactly by `level > kindPrec`
+     `unparse_slot_levels`    … and renders every child at the `slotLevel` of its slot
   3. `prec_table_ok`          wherever the grammar needs parentheses the model writes them, except six pairs
      `prec_table_exact`       … and the model's decision is exactly: needed, or one of five harmless families
      `dict_unpack_defect`     the six pairs: needed, not written
-  4. `parse_unparse_partial`  round trip for every expression of the operator core, `unparse_fixpoint`
-  5. `parse_unparse_fails`    the full statement is false for the code as it is; witnesses for each finding
+  4. `parse_unparse_partial`  round trip for every expression of `InFragment` (operators, trailers, displays,
+                              literals, await / yield), `unparse_fixpoint`
+  5. `parse_unparse_fails`    the full statement is false for the code as it is; witnesses for the findings
 -/
 namespace PV.C11
 open PV.Expr
@@ -47,6 +49,85 @@ theorem unparse_shape (p : Nat → Bool) (e : Expr) (lvl : Nat) :
 example (p : Nat → Bool) : toks (unparse p (.binOp (.name [97]) .add (.name [98])) Prec.TERM) =
     [.op .lpar, .name [97], .op .plus, .name [98], .op .rpar] := by
   simp [unparse, groupIf, binOpPrec, Prec.TERM, Prec.ARITH, binOpTok, op]
+
+/-- **Every child is rendered at the level its slot has in the table** (`slotLevel`), for every
+    constructor of the unparser model.  Together with `unparse_shape` this says that the model's
+    parenthesisation of any child of any node is `modelParens slot (kindOf child)`. -/
+theorem unparse_slot_levels (p : Nat → Bool) :
+    -- operators
+    (∀ o v vs first, unparseBool p (v :: vs) (boolOpKw o) (slotLevel (.boolOperand o)) first =
+        (if first then [] else [.sp, kw (boolOpKw o), .sp]) ++ unparse p v (slotLevel (.boolOperand o)) ++
+          unparseBool p vs (boolOpKw o) (slotLevel (.boolOperand o)) false) ∧
+    (∀ o vs, unparse p (.boolOp o vs) (boolOpPrec o) =
+        unparseBool p vs (boolOpKw o) (slotLevel (.boolOperand o)) true) ∧
+    (∀ l o r, unparse p (.binOp l o r) (binOpPrec o) =
+        unparse p l (slotLevel (.binLeft o)) ++ [.sp, op (binOpTok o), .sp] ++ unparse p r (slotLevel (.binRight o))) ∧
+    (∀ o x, unparse p (.unaryOp o x) (unaryOpPrec o) = unaryOpOuts o ++ unparse p x (slotLevel (.unaryOperand o))) ∧
+    (∀ l ops cs, unparse p (.compare l ops cs) Prec.CMP = unparse p l (slotLevel .cmpLeft) ++ unparseCmps p ops cs) ∧
+    (∀ o os c cs, unparseCmps p (o :: os) (c :: cs) =
+        [.sp] ++ cmpOpOuts o ++ [.sp] ++ unparse p c (slotLevel .cmpRight) ++ unparseCmps p os cs) ∧
+    (∀ t b o, unparse p (.ifExp t b o) Prec.TEST =
+        unparse p b (slotLevel .ifBody) ++ [.sp, kw .if, .sp] ++ unparse p t (slotLevel .ifTest) ++
+          [.sp, kw .else, .sp] ++ unparse p o (slotLevel .ifOrelse)) ∧
+    (∀ x, unparse p (.await x) Prec.AWAIT = [kw .await, .sp] ++ unparse p x (slotLevel .awaitOperand)) ∧
+    (∀ t v, unparse p (.namedExpr t v) Prec.TUPLE =
+        unparse p t Prec.ATOM ++ [.sp, op .walrus, .sp] ++ unparse p v (slotLevel .namedValue)) ∧
+    -- trailers
+    (∀ v n lvl, unparse p (.attribute v n) lvl =
+        unparse p v (slotLevel .attrValue) ++ (if isIntConst v then [.sp, op .dot] else [op .dot]) ++ [.t (.name n)]) ∧
+    (∀ v s lvl, unparse p (.subscript v s) lvl =
+        unparse p v (slotLevel .subValue) ++ [op .lsqb] ++ unparse p s (slotLevel .subSlice) ++ [op .rsqb]) ∧
+    (∀ v lvl, unparse p (.starred v) lvl = [op .star] ++ unparse p v (slotLevel .starredValue)) ∧
+    -- element lists, dict entries, keywords, comprehensions
+    (∀ x xs first, unparseSeq p (x :: xs) Prec.TEST first =
+        delim first ++ unparse p x (slotLevel .listElt) ++ unparseSeq p xs Prec.TEST false) ∧
+    (∀ k v is first, unparseDictItems p (.mk (some k) v :: is) first =
+        delim first ++ unparse p k (slotLevel .dictKey) ++ [op .colon, .sp] ++ unparse p v (slotLevel .dictValue) ++
+          unparseDictItems p is false) ∧
+    (∀ v is first, unparseDictItems p (.mk none v :: is) first =
+        delim first ++ [op .dstar] ++ unparse p v (slotLevel .dictUnpack) ++ unparseDictItems p is false) ∧
+    (∀ a v ks first, unparseKeywords p (.mk (some a) v :: ks) first =
+        delim first ++ [.t (.name a), op .assign] ++ unparse p v (slotLevel .callKwValue) ++ unparseKeywords p ks false) ∧
+    (∀ v ks first, unparseKeywords p (.mk none v :: ks) first =
+        delim first ++ [op .dstar] ++ unparse p v (slotLevel .callDstarValue) ++ unparseKeywords p ks false) ∧
+    (∀ t i ifs a gs, unparseComp p (.mk t i ifs a :: gs) =
+        (if a then [.sp, kw .async, .sp, kw .for, .sp] else [.sp, kw .for, .sp]) ++
+          unparse p t (slotLevel .compTarget) ++ [.sp, kw .in, .sp] ++ unparse p i (slotLevel .compIter) ++
+          unparseIfs p ifs ++ unparseComp p gs) ∧
+    (∀ c cs, unparseIfs p (c :: cs) = [.sp, kw .if, .sp] ++ unparse p c (slotLevel .compIf) ++ unparseIfs p cs) ∧
+    (∀ e gs lvl, unparse p (.listComp e gs) lvl =
+        [op .lsqb] ++ unparse p e (slotLevel .listCompElt) ++ unparseComp p gs ++ [op .rsqb]) ∧
+    (∀ k v gs lvl, unparse p (.dictComp k v gs) lvl =
+        [op .lbrace] ++ unparse p k (slotLevel .dictCompKey) ++ [op .colon, .sp] ++
+          unparse p v (slotLevel .dictCompValue) ++ unparseComp p gs ++ [op .rbrace]) ∧
+    (∀ v lvl, unparse p (.yield (some v)) lvl =
+        [op .lpar, kw .yield, .sp] ++ unparse p v (slotLevel .yieldValue) ++ [op .rpar]) ∧
+    (∀ v lvl, unparse p (.yieldFrom v) lvl =
+        [op .lpar, kw .yield, .sp, kw .from, .sp] ++ unparse p v (slotLevel .yieldFromValue) ++ [op .rpar]) := by
+  refine ⟨?_, ?_, ?_, ?_, ?_, ?_, ?_, ?_, ?_, ?_, ?_, ?_, ?_, ?_, ?_, ?_, ?_, ?_, ?_, ?_, ?_, ?_, ?_⟩
+  · intro o v vs first; cases first <;> simp [unparseBool, slotLevel]
+  · intro o vs; simp [unparse, groupIf, slotLevel]
+  · intro l o r; cases o <;> simp [unparse, groupIf, slotLevel]
+  · intro o x; simp [unparse, groupIf, slotLevel]
+  · intro l ops cs; simp [unparse, groupIf, slotLevel, Prec.CMP]
+  · intro o os c cs; simp [unparseCmps, slotLevel]
+  · intro t b o; simp [unparse, groupIf, slotLevel, Prec.TEST]
+  · intro x; simp [unparse, groupIf, slotLevel, Prec.AWAIT]
+  · intro t v; simp [unparse, groupIf, slotLevel, Prec.TUPLE]
+  · intro v n lvl; simp [unparse, slotLevel]
+  · intro v s lvl; simp [unparse, slotLevel]
+  · intro v lvl; simp [unparse, slotLevel]
+  · intro x xs first; simp [unparseSeq, slotLevel]
+  · intro k v is first; simp [unparseDictItems, slotLevel]
+  · intro v is first; simp [unparseDictItems, slotLevel]
+  · intro a v ks first; simp [unparseKeywords, slotLevel]
+  · intro v ks first; simp [unparseKeywords, slotLevel]
+  · intro t i ifs a gs; cases a <;> simp [unparseComp, slotLevel]
+  · intro c cs; simp [unparseIfs, slotLevel]
+  · intro e gs lvl; simp [unparse, slotLevel]
+  · intro k v gs lvl; simp [unparse, slotLevel]
+  · intro v lvl; simp [unparse, slotLevel]
+  · intro v lvl; simp [unparse, slotLevel]
 
 /-! ## 3. model decision vs grammar requirement, over all (slot, kind) pairs -/
 
@@ -121,11 +202,12 @@ def parse_unparse_full : Prop :=
   ∀ (p : Nat → Bool) (e : Expr), WF e →
     ∃ n, ∀ fuel, n ≤ fuel → parseRef fuel (toks (display p e)) = some (eraseCtx e, [])
 
-/-- **Round trip on the operator core.**  For every expression built from names, numeric / `None` /
-    `True` / `False` / `...` constants, `and`/`or` chains, the four unary and thirteen binary operators,
-    comparison chains and conditional expressions — nested arbitrarily, of any size — the reference parser
-    reads the token sequence of the unparser model's output back as the same tree and consumes all of it.
-    (`p` is the printable-character table, irrelevant here.) -/
+/-- **Round trip on the fragment.**  For every expression built from names, constants of every kind,
+    attribute / single-index / positional-call trailers, list / tuple / set / `key: value` dict displays,
+    `await`, `yield`, `yield from`, `and`/`or` chains, the four unary and thirteen binary operators, comparison
+    chains and conditional expressions — nested arbitrarily, of any size — the reference parser reads the token
+    sequence of the unparser model's output back as the same tree and consumes all of it.
+    (`p` is the printable-character table; it only influences the text of string tokens.) -/
 theorem parse_unparse_partial (p : Nat → Bool) (e : Expr) (h : InFragment e) :
     ∃ n, ∀ fuel, n ≤ fuel → parseRef fuel (toks (display p e)) = some (eraseCtx e, []) := by
   have := (rt_all p e h).rt 1 [] (Nat.le_refl _) (by omega) (Stop.nil _)
@@ -139,13 +221,14 @@ theorem parse_unparse_partial_at (p : Nat → Bool) (e : Expr) (h : InFragment e
     ∃ n, ∀ fuel, n ≤ fuel → parseAt lvl fuel (toks (unparse p e lvl) ++ rest) = some (e, rest) :=
   (rt_all p e h).rt lvl rest h1 h15 hs
 
-/-- `-2 ** -x < (a if b else c) or not y` — in the fragment, with right-associative `**`, unary/power
-    interplay, a parenthesised conditional and a boolean chain -/
+/-- `-2 ** (-x) < (a if b else c) or not y['k'].g((1,), [], {z, b'\\x00'})` — in the fragment: unary/power
+    interplay, a parenthesised conditional, a boolean chain, trailers, displays, literals -/
 def sampleExpr : Expr :=
   .boolOp .or
     [.compare (.unaryOp .uSub (.binOp (.const (.int 2)) .pow (.unaryOp .uSub (.name [120])))) [.lt]
        [.ifExp (.name [98]) (.name [97]) (.name [99])],
-     .unaryOp .not (.name [121])]
+     .unaryOp .not (.call (.attribute (.subscript (.name [121]) (.const (.str [107] false))) [103])
+       [.tuple [.const (.int 1)], .list [], .set [.name [122], .const (.bytes [0])]] [])]
 
 example : InFragment sampleExpr := by decide
 example : WF sampleExpr := by decide
@@ -156,6 +239,19 @@ theorem inFrag_wf_aux : (e : Expr) → inFrag e = true → ∀ pos, wf pos e = t
   | .name _, _, _ => by simp [wf]
   | .const _, _, _ => by simp [wf]
   | .attribute v _, h, pos => by simp [inFrag] at h; simp [wf, inFrag_wf_aux v h]
+  | .dict items, h, pos => by simp [inFrag] at h; simp [wf, inFragItems_wf_aux items h]
+  | .await v, h, pos => by simp [inFrag] at h; simp [wf, inFrag_wf_aux v h]
+  | .yield none, _, _ => by simp [wf]
+  | .yield (some v), h, pos => by simp [inFrag] at h; simp [wf, inFrag_wf_aux v h]
+  | .yieldFrom v, h, pos => by simp [inFrag] at h; simp [wf, inFrag_wf_aux v h]
+  | .list es, h, pos => by simp [inFrag] at h; simp [wf, inFragList_wf_aux es h]
+  | .tuple es, h, pos => by simp [inFrag] at h; simp [wf, inFragList_wf_aux es h]
+  | .set es, h, pos => by simp [inFrag] at h; simp [wf, h.1, inFragList_wf_aux es h.2]
+  | .call fn args [], h, pos => by
+    simp [inFrag] at h; simp [wf, wfKeywords, inFrag_wf_aux fn h.1, inFragList_wf_aux args h.2]
+  | .subscript v s, h, pos => by
+    simp [inFrag] at h
+    simp [wf, inFrag_wf_aux v h.1.1, inFrag_wf_aux s h.1.2]
   | .boolOp o vs, h, pos => by
     simp [inFrag] at h
     simp [wf, h.1, inFragList_wf_aux vs h.2]
@@ -167,11 +263,17 @@ theorem inFrag_wf_aux : (e : Expr) → inFrag e = true → ∀ pos, wf pos e = t
   | .ifExp t b o, h, pos => by
     simp [inFrag] at h
     simp [wf, inFrag_wf_aux t h.1.1, inFrag_wf_aux b h.1.2, inFrag_wf_aux o h.2]
-  | .namedExpr .., h, _ | .lambda .., h, _ | .dict .., h, _ | .set .., h, _ | .listComp .., h, _
-  | .setComp .., h, _ | .dictComp .., h, _ | .genExp .., h, _ | .await .., h, _ | .yield .., h, _
-  | .yieldFrom .., h, _ | .call .., h, _ | .formattedValue .., h, _ | .joinedStr .., h, _
-  | .subscript .., h, _ | .starred .., h, _ | .list .., h, _ | .tuple .., h, _
+  | .namedExpr .., h, _ | .lambda .., h, _ | .listComp .., h, _
+  | .setComp .., h, _ | .dictComp .., h, _ | .genExp .., h, _
+  | .call _ _ (_ :: _), h, _ | .formattedValue .., h, _ | .joinedStr .., h, _
+  | .starred .., h, _
   | .slice .., h, _ => by simp [inFrag] at h
+theorem inFragItems_wf_aux : (is : List DictItem) → inFragItems is = true → wfItems is = true
+  | [], _ => by simp [wfItems]
+  | .mk none v :: is, h => by simp [inFragItems] at h
+  | .mk (some k) v :: is, h => by
+    simp [inFragItems] at h
+    simp [wfItems, wfOpt, inFrag_wf_aux k h.1.1, inFrag_wf_aux v h.1.2, inFragItems_wf_aux is h.2]
 theorem inFragList_wf_aux : (es : List Expr) → inFragList es = true → ∀ pos, wfList pos es = true
   | [], _, _ => by simp [wfList]
   | e :: es, h, pos => by
@@ -230,10 +332,11 @@ theorem parse_unparse_fails : ¬ parse_unparse_full := by
   rw [(dict_unpack_witness (fun _ => true)).2 n] at this
   cases this
 
-/-- Witness 2 (text level, shared with C17): the constant `0.9999999999999999` (bits `3fefffffffffffff`)
-    is rendered as text that lexes back to `1.0` (bits `3ff0000000000000`). -/
-theorem float_witness :
-    lex (displayText (fun _ => true) (.const (.float 0x3FEFFFFFFFFFFFFF))) = some [.float 0x3FF0000000000000] := by
+/-- Regression (text level, shared with C17): the constant `0.9999999999999999` (bits `3fefffffffffffff`,
+    `1 - 2^-53`) used to be rendered `1.0` (`is_integer` compared with `EPSILON`; fixed in /repo by 5be0365);
+    the model of the repaired `to_string` renders text that lexes back to the same constant. -/
+theorem float_near_one_roundtrip :
+    lex (displayText (fun _ => true) (.const (.float 0x3FEFFFFFFFFFFFFF))) = some [.float 0x3FEFFFFFFFFFFFFF] := by
   decide +kernel
 
 /-- `f'''{d['a']}"'''` -/
